@@ -4,13 +4,13 @@ go 1.26.3
 
 require (
 	github.com/anishathalye/porcupine v1.3.0
+	github.com/fxamacker/cbor/v2 v2.9.2
 	github.com/miekg/dns v1.1.72
 	github.com/mycoria/crop v0.3.1
 	github.com/mycoria/mycoria v0.0.0
 )
 
 require (
-	github.com/fxamacker/cbor/v2 v2.9.2 // indirect
 	github.com/google/btree v1.1.3 // indirect
 	github.com/klauspost/cpuid/v2 v2.4.0 // indirect
 	github.com/leekchan/gtf v0.0.0-20190214083521-5fba33c5b00b // indirect
